@@ -104,6 +104,7 @@ def small_scenario(rng):
     while True:
         sc = scorr.gen_scenario(rng)
         if len(sc["sims"]) <= 3 and sc["until"] <= 3 and not scorr.nonuniform_cutoff(sc, False):
+            sc["sparse_persistent"] = False      # API-compliant simulators only
             return sc
 
 
